@@ -474,9 +474,12 @@ class HierDictDocument(DictDocument):
         if self.ignore_wrappers:
             ti = getattr(cls, '_type_info', {})
 
-            while cls.Attributes._wrapper and len(ti) == 1:
+            while cls.Attributes._wrapper and len(ti) == 1 \
+                                          and not cls.Attributes.max_occurs > 1:
                 # Wrappers are auto-generated objects that have exactly one
-                # child type.
+                # child type. A wrapper that is itself repeated (the member
+                # type of an array of arrays) is a sequence of wrappers: its
+                # items are unwrapped one by one below.
                 key, = ti.keys()
                 if not issubclass(cls, Array):
                     inst = getattr(inst, key, None)
